@@ -99,6 +99,7 @@ type observed struct {
 type hashApp struct {
 	in  []*Term // input bytes (BV8 terms)
 	out []*Term // output bytes
+	concrete bool
 }
 
 func (p *pathState) invalidateModel() { p.model = nil; p.memo = nil }
